@@ -12,6 +12,7 @@ def harnesses(tier):
     # the same client with one mark bit in its concurrent_ptrs (XV_MARKBITS=1): a second thread toggles only the mark
     return [('cptr', ('XV_RECL=EBR',), False, '')] + rc.harnesses('thorough', only=None if tier == 'thorough' else SFX_QUICK) + [('recl', ('XV_RECL=%s' % a, 'XV_MARKBITS=1'), False, sfx) for a, sfx in (MARKED_ALL if tier == 'thorough' else MARKED)]
 HARNESSES = harnesses('quick')
+PROPERTY_FILES = ['Properties_C15', 'Properties_C15_guards']
 ASSUMPTIONS = [
     'marked_ptr: the theorems are about the Gallina functions generated from marked_ptr.hpp/utils.hpp; the generated functions are additionally run against the compiled C++ on random and boundary inputs for 14 (MarkBits, MaxUpperMarkBits) instantiations in every run',
     'guard_ptr algebra: explored (bounded random guard-operation sequences on one thread for every reclaimer, plus a thread that keeps replacing the source pointer); oracles: dereference through every non-empty guard finds a live object, acquire_if_equal returns true exactly when the snapshot equals expected and leaves the guard empty otherwise, move empties the source',
@@ -98,6 +99,22 @@ def run(ctx):
     rng, tier = ctx['rng'], ctx['tier']
     thorough = tier == 'thorough'
     tie = marked_ptr_differential(ctx)
+    # guard algebra theorems (Properties_C15_guards.v) are about the guard / slot models: differential run against the real guard_ptrs
+    # (random sequences of acquire / acquire_if_equal / reset / copy / move / swap; slot indices, protected sets, free lists compared)
+    import sys
+    for he in (False, True):
+        cmd = [sys.executable, os.path.join(X.VERIF, 'tools', 'hpslots_diff.py'), str(ctx['seed'] + 100), str(200 if ctx['tier'] == 'thorough' else 60)] + (['--he'] if he else [])
+        drc, out, err = X.sh(cmd, timeout=1500)
+        label = 'guards-he' if he else 'guards-hp'
+        m = re.search(r'(\d+) fixed \+ (\d+) random sequences \((\d+) operations', out)
+        ctx['cov'].setdefault('differential', {})[label] = {'rc': drc, 'sequences': (int(m.group(1)) + int(m.group(2))) if m else 0, 'operations': int(m.group(3)) if m else 0}
+        if m:
+            ctx['cov']['evaluations'] = ctx['cov'].get('evaluations', 0) + int(m.group(1)) + int(m.group(2))
+            ctx['cov']['traces_validated_against_impl'] = ctx['cov'].get('traces_validated_against_impl', 0) + int(m.group(1)) + int(m.group(2))
+        log('differential[%s]: rc=%d %s' % (label, drc, (out.strip().splitlines() or ['?'])[-1][:200] if drc == 0 else out.strip()[:400]))
+        if drc != 0 and tie is None:
+            cm = re.search(r'case:\n(.*)', out, re.S)
+            tie = {'kind': 'correspondence', 'detail': '%s: guard / slot model and the real guard_ptrs disagree: %s' % (label, out.strip()[:600]), 'case': cm.group(1)[:2000] if cm else ''}
     # concurrent_ptr conformance: every operation with every memory order (pair) on a concurrent_ptr and on a std::atomic<marked_ptr>:
     # identical atomic accesses (kind, orders, values) and identical results
     Hc = ctx['H'].pop('cptr')
